@@ -1658,28 +1658,30 @@ end Poetry.C19
 /-!
 C19, Part XIII — lark's error (`.syntax`) outside the input text: when can `SingleMarker.__str__` be read back
 by the marker grammar, and what follows for `invert` and for the re-parsing steps of the simplifier.
-Property theorems only (helper lemmas: Proofs/ParserTotalLex.lean).  Fragment to be appended to Props/C19.lean
-(the `import` of Props/C19 below only serves the stand-alone build).
+Property theorems only (helper lemmas: Proofs/ParserTotalLex.lean).
 
-FINDING (real code, replayed; the model agrees — counterexample theorems below): `invert()` and
-`parse_marker(str(m))` raise lark's `UnexpectedCharacters` for accepted markers whose value
- * ends in an odd number of backslashes and holds no double quote: `parse_marker("os_name == 'a\\'")` (value
-   `a\`) prints `os_name == "a\"` — the backslash escapes the closing quote;
- * holds both quote characters: `parse_marker('os_name == "a\\"\'b"')` (value `a\"'b`) prints
-   `os_name == 'a\"'b'`.
-So lexability is a genuine hypothesis.  Proved here: the grammar reads back `leafText` for a grammar name, a grammar
-operator and a LEXABLE value (`LexVal`: no `"`, `\`, newline — or a `"` and no `'`); `invert` never raises lark's
-error on markers whose single leaves are lexable (operators other than `~=`); every leaf `_compact_markers` builds
-from a LEXABLE INPUT tree (`SynLexIn`: items `name op "value"`, operator not `~=`, value without backslash/newline
-and not holding both quote characters) is lexable; for the simplifier the statement is reduced to ONE named
-hypothesis on the leaf merge (`MergeNoSyntax`).
-NOT reached (named missing lemmas): (a) `MergeNoSyntax (LeafOK GoodVC)` restricted to lexable leaves — needs (a1)
-"every `Version.text` inside a leaf constraint is free of quotes/backslash/newline" as an invariant of the
-version-constraint algebra (for the candidate text `python_version == "<min.text>"` and for `~=` inversion), (a2)
-the same for the values of string-constraint atoms (`mkSingleOfC` prints `str(constraint)`), (a3) the rewritten
-`python_full_version` text of `_merge_python_version_single_markers` parses (only proved for release literals in
-Proofs/PyConvPairRewrite.lean); (b) swapped items `"value" op name` and `~=` in `SynLexIn` (needs: the operator
-group of `STR_CMP_CONSTRAINT` is never `~=`; the value group is a prefix of the value).
+History: `invert()` / `parse_marker(str(m))` raised lark's `UnexpectedCharacters` for accepted markers whose value
+held a double quote (fixed 3046ca3), ended in an odd run of backslashes, or held both quote characters (fixed
+7b51c5a: `_quoted` writes single quotes when the value holds no `'` and holds a `"` or a backslash).
+With that printing:
+* `LexVal v`: the quote `_quoted` chooses reads `v` back (`SqOk` for single quotes; `EscOk` — the `ESCAPED_STRING`
+  scanner returns `v` — for double quotes);
+* EVERY value the grammar's string tokens hold is of the kind `TokVal` (no `'`, or re-readable by the
+  `ESCAPED_STRING` scanner: `parseText_tok`), and every leaf built from an item `name op <token>` (operator not
+  `~=`) stores a lexable value (`mkSingle_lexLeaf`: the stored value is the token minus a prefix of plain
+  characters, cut at a newline; the `.0` padding is plain);
+* hence for every accepted text without swapped items and without `~=`, `invert` of the un-simplified marker never
+  raises lark's error (`invert_no_syntax_grammar`) — no hypothesis on the values.
+STILL FALSE at the constructor level (real, replayed): `SingleMarker("os_name", "==a'\"b").invert()` and
+`SingleMarker("os_name", "==a'\\").invert()` raise `UnexpectedCharacters` — a value holding `'` is written between
+double quotes unchanged, which is only right for values that came out of an `ESCAPED_STRING` token;
+`SingleMarker("foo", "==x").invert()` too (unknown name).  These objects cannot come out of `parse_marker`.
+NOT reached (named missing lemmas): (b) swapped items `"value" op name` and `~=` (`SynPlain`): needs "the operator
+group of `STR_CMP_CONSTRAINT` is never `~=`", "its value group is the whole token" and, for `~=`, (a1); for the
+simplifier (`MergeNoSyntax`): (a1) every `Version.text` inside a leaf constraint is plain, as an invariant of the
+version-constraint algebra, (a2) the values of string-constraint atoms stay lexable under `intersect`/`union`
+(`mkSingleOfC` prints `str(constraint)`), (a3) the rewritten `python_full_version` text of
+`_merge_python_version_single_markers` parses (only proved for release literals, Proofs/PyConvPairRewrite.lean).
 -/
 set_option linter.unusedSimpArgs false
 set_option linter.unusedVariables false
@@ -1689,13 +1691,30 @@ open Poetry Marker ParserTotal
 
 /-! # Part XIII — lark's error outside the input text -/
 
-/-! ## the unrestricted statement (open), and the regressions of the two repaired counterexamples -/
+/-! ## the constructor-level statement is false; regressions of the repaired grammar-level counterexamples -/
 
-/-- the full statement: `invert` of a marker built from an accepted text never raises lark's error.  Open since repo fix
-7b51c5a removed the two known counterexamples (values with a backslash / with both quote characters). -/
+/-- the unrestricted statement: `invert` of ANY `SingleMarker(name, constraint_string)` never raises lark's error.
+FALSE (`invert_no_syntax_ctor_counterexample`): the constructor accepts values no string token can hold. -/
 def invert_no_syntax_full_statement : Prop :=
   ∀ (name cstr : String) (s : Single) (e : PyErr), mkSingle name cstr false = .ok s →
     Leaf.invert (.single s) = .error e → e ≠ .syntax
+
+/-- **Counterexample (real, constructor level).** `SingleMarker("os_name", "==a'\"b").invert()` raises
+`UnexpectedCharacters`: the value `a'"b` holds a single quote, so it is written between double quotes, where its
+un-escaped `"` ends the string. -/
+theorem invert_syntax_ctor_counterexample :
+    ∃ s, mkSingle "os_name" "==a'\"b" false = .ok s ∧ Leaf.invert (.single s) = .error .syntax :=
+  ⟨_, rfl, eq_error_of_isErrB _ _ (by decide +kernel)⟩
+
+/-- … and `SingleMarker("os_name", "==a'\\")`: a value with a single quote that ends in a backslash -/
+theorem invert_syntax_ctor_counterexample_backslash :
+    ∃ s, mkSingle "os_name" "==a'\\" false = .ok s ∧ Leaf.invert (.single s) = .error .syntax :=
+  ⟨_, rfl, eq_error_of_isErrB _ _ (by decide +kernel)⟩
+
+theorem invert_no_syntax_ctor_counterexample : ¬ invert_no_syntax_full_statement := by
+  intro h
+  obtain ⟨s, h1, h2⟩ := invert_syntax_ctor_counterexample
+  exact h _ _ s _ h1 h2 rfl
 
 /-- **Regression of repo fix 7b51c5a** (was a counterexample: `parse_marker("os_name == 'a\\'").invert()` raised
 `UnexpectedCharacters` because the value `a\` was printed as `"a\"`): the value is now written in single quotes and
@@ -1718,13 +1737,23 @@ example : parseText "os_name == 'a\\'" = .ok (.one (.item "os_name" "==" "a\\" f
 /-! ## what holds -/
 
 /-- **L1. The grammar reads back what `SingleMarker.__str__` prints** for a grammar name, a grammar operator and a
-lexable value — both quoting styles of repo fix 3046ca3. -/
+lexable value — both quoting styles, both orientations. -/
 theorem lexable_leaf_text_reparses (n op v : String) (sw : Bool) (hn : n ∈ names) (ho : op ∈ ops)
     (hv : LexVal v) : parseText (leafText n op v sw) = .ok (.one (.item n op v sw)) :=
   parseText_leafText n op v sw hn ho hv
 
-example : LexVal "a\"b" ∧ LexVal "nt" ∧ LexVal "it's" :=
-  ⟨.inr ⟨by decide, by unfold SqOk; decide⟩, .inl (by unfold ValOk; decide), .inl (by unfold ValOk; decide)⟩
+/-- plain values are lexable; so is a value with a double quote or a backslash and no single quote -/
+theorem lexable_plain (v : String) (h : ∀ c ∈ v.toList, c ≠ '"' ∧ c ≠ '\\' ∧ c ≠ '\n' ∧ c ≠ '\'') : LexVal v :=
+  PlainStr.lex h
+
+example : LexVal "nt" := lexable_plain _ (by decide)
+example : LexVal "a\"b" := .inl ⟨by decide, by unfold SqOk; decide⟩
+example : LexVal "a\\" := .inl ⟨by decide, by unfold SqOk; decide⟩
+
+/-- **L0. What the grammar's string tokens hold**: every item of every accepted text has a grammar name, a
+grammar operator and a value without `'` (`SINGLE_QUOTED_STRING`) or one the `ESCAPED_STRING` scanner reads back. -/
+theorem grammar_items_are_tokens (s : String) (syn : Syn) (h : parseText s = .ok syn) : SynTok syn :=
+  parseText_tok s syn h
 
 /-- **L2. `invert` does not raise lark's error** on a marker whose `SingleMarker` leaves have a grammar name, a
 lexable value and an operator other than `~=` (atomic multi/union markers never re-parse). -/
@@ -1736,25 +1765,44 @@ theorem invert_single_err_classified (s : Single) (hn : s.name ∈ names) (hv : 
     (h : invertSimple s = .error e) : e = .runtime ∨ e = .value ∨ e = .unmodelled :=
   invertSimple_err vc_err_documented s hn hv e h
 
-/-- **L3. Leaves built from a lexable input are lexable.** -/
+/-- **L3. Leaves built from a plain input tree are lexable** — no condition on the values beyond being token
+values. -/
 theorem compact_leaves_lexable (syn : Syn) (subs : List M) (hl : SynLexIn syn)
     (h : compactSubMarkers syn = .ok subs) : ∀ m ∈ subs, M.Good LexLeaf m :=
   compactSubMarkers_lex syn subs hl h
 
-/-- **L2+L3. For a lexable input, `invert` of the (un-simplified) marker does not raise lark's error.** -/
+/-- **L2+L3.** -/
 theorem invert_no_syntax_of_input (syn : Syn) (m : M) (hl : SynLexIn syn) (hc : compactRaw syn = .ok m)
     (e : PyErr) (h : m.invert = .error e) : e ≠ .syntax :=
   invert_no_syntax m (compactRaw_lex syn m hl hc) e h
 
-/-- Regression (repo fix 3046ca3): `os_name == 'a"b'` — a value holding a double quote.  The input is lexable, the
-leaf is built, it is lexable, and its inversion succeeds (it raised `UnexpectedCharacters` before the fix). -/
-example : SynLexIn (.one (.item "os_name" "==" "a\"b" false)) ∧
-    ∃ s, mkSingle "os_name" (itemConstraintString "==" "a\"b" false) false = .ok s ∧ LexLeaf (.single s) ∧
+/-- the grammar-level statement: for every accepted text, `invert` of the marker `_compact_markers` builds does not
+raise lark's error.  Proved for texts without swapped items and without `~=` (`invert_no_syntax_grammar`); open
+for those (missing lemmas (b), (a1) of the header). -/
+def invert_no_syntax_grammar_full_statement : Prop :=
+  ∀ (s : String) (syn : Syn) (m : M) (e : PyErr), parseText s = .ok syn → compactRaw syn = .ok m →
+    m.invert = .error e → e ≠ .syntax
+
+/-- **L4. For EVERY accepted text without swapped items and without `~=`, `invert` does not raise lark's error**
+— whatever the values are (backslashes, both quote characters, white space, newlines in `'…'` tokens). -/
+theorem invert_no_syntax_grammar (s : String) (syn : Syn) (m : M) (e : PyErr) (hp : parseText s = .ok syn)
+    (hpl : SynPlain syn = true) (hc : compactRaw syn = .ok m) (h : m.invert = .error e) : e ≠ .syntax :=
+  invert_no_syntax_of_input syn m (synLexIn_of syn (parseText_tok s syn hp) hpl) hc e h
+
+/-- the hypotheses are met, e.g. by the text of the former counterexample with both quote characters: -/
+example : parseText "os_name == \"a\\\"'b\" and sys_platform != 'a\\'" =
+      .ok (.more (.item "os_name" "==" "a\\\"'b" false) false (.one (.item "sys_platform" "!=" "a\\" false))) ∧
+    SynPlain (.more (.item "os_name" "==" "a\\\"'b" false) false (.one (.item "sys_platform" "!=" "a\\" false))) = true ∧
+    ∃ m, compactRaw (.more (.item "os_name" "==" "a\\\"'b" false) false
+      (.one (.item "sys_platform" "!=" "a\\" false))) = .ok m :=
+  ⟨by decide +kernel, by decide, _, rfl⟩
+
+/-- Regression (repo fix 3046ca3): `os_name == 'a"b'` — the leaf is built, it is lexable, and its inversion succeeds. -/
+example : ∃ s, mkSingle "os_name" (itemConstraintString "==" "a\"b" false) false = .ok s ∧ LexLeaf (.single s) ∧
       ∃ r, Leaf.invert (.single s) = .ok r := by
-  have hl : SynLexIn (.one (.item "os_name" "==" "a\"b" false)) :=
-    ⟨by decide, by decide, by decide, rfl, by decide, .inr (by decide)⟩
-  refine ⟨hl, _, rfl, ?_, exists_ok_of_isOkB _ (by decide +kernel)⟩
-  exact mkSingle_lexLeaf "os_name" "==" "a\"b" (by decide) (by decide) (by decide) hl.2.2.2.2 _ rfl
+  refine ⟨_, rfl, ?_, exists_ok_of_isOkB _ (by decide +kernel)⟩
+  exact mkSingle_lexLeaf "os_name" "==" "a\"b" (by decide) (by decide) (by decide)
+    (.inl (by unfold SqOk; decide)) _ rfl
 
 /-! ## the simplifier -/
 
